@@ -596,7 +596,7 @@ def instances(tier):
         if quick and i % 2 == 1:
             continue
         add(f'table/{bo}/{forms[i % 3]}/m{i % 3}', 'table', {'body_order': bo, 'note_form': forms[i % 3], 'case': ('same', 'upper', 'mixed')[i % 3],
-                                                          'K': K, 'fix': tmasks[i % 3]}, T1)
+                                                          'K': 1 if quick else K, 'fix': tmasks[i % 3]}, T1)
     if not quick:
         for i, bo in enumerate(BODY_ORDERS):
             for j in (1, 2):
@@ -608,7 +608,7 @@ def instances(tier):
               {'s_name': True, 's_note': True, 's_type': True}]
     for i, sh in enumerate(shapes):
         add(f'index/{sh}/{IDX_TYPES[i]}/m{i % 3}', 'index', {'shape': sh, 'itype': IDX_TYPES[i], 'layout': ('one', 'multi')[i % 2],
-                                                           'case': ('same', 'upper', 'mixed')[i % 3], 'K': K, 'fix': imasks[i % 3]}, T1)
+                                                           'case': ('same', 'upper', 'mixed')[i % 3], 'K': 1 if quick else K, 'fix': imasks[i % 3]}, T1)
     if not quick:
         for i, sh in enumerate(shapes):
             for j in (1, 2):
@@ -634,8 +634,8 @@ def instances(tier):
     # ---- project / group / sticky: group note form and element order symbolic
     omasks = [{'p_note': True, 'g_color': False, 'g_two': True, 'order': 0}, {'p_note': False, 'g_color': True, 'g_two': False, 'order': 2},
               {'p_note': True, 'g_color': True, 'g_two': True, 'order': 1}]
-    add('others/same/m0', 'others', {'case': 'same', 'K': K, 'fix': omasks[0]}, T1)
-    add('others/mixed/m1', 'others', {'case': 'mixed', 'K': K, 'fix': omasks[1]}, T1)
+    add('others/same/m0', 'others', {'case': 'same', 'K': 1 if quick else K, 'fix': omasks[0]}, T1)
+    add('others/mixed/m1', 'others', {'case': 'mixed', 'K': 1 if quick else K, 'fix': omasks[1]}, T1)
     if not quick:
         add('others/upper/m2', 'others', {'case': 'upper', 'K': K, 'fix': omasks[2]}, T1)
     add('equivalence', 'equivalence', {'K': 1 if quick else 2}, T1)
